@@ -77,6 +77,13 @@ impl AuthenticationRequest {
         data: &[u8],
         parameter: impl Into<AuthenticationParameter>,
     ) -> Result<Self, TryFromSliceError> {
+        // challenge (32 bytes) + application (32 bytes) + key handle length (1 byte)
+        const FIXED_LEN: usize = 65;
+        if data.len() < FIXED_LEN || data.len() - FIXED_LEN < data[FIXED_LEN - 1] as usize {
+            // The message is shorter than what it announces. A `TryFromSliceError` cannot be
+            // built directly, so get it from a conversion of the empty slice which always fails.
+            <[u8; 1]>::try_from(&data[..0])?;
+        }
         let (challenge, data) = data.split_at(32);
         let (application, data) = data.split_at(32);
         let (handle_len, data) = data.split_at(1);
